@@ -24,7 +24,7 @@ type HashBinCase struct {
 	Flags  []string `json:"flags"`
 }
 
-var hashBinKinds = []string{"regular", "regular", "dir", "missing", "dangling", "symlink", "unreadable", "empty"}
+var hashBinKinds = []string{"regular", "regular", "dir", "missing", "dangling", "symlink", "unreadable", "empty", "devnull", "dirlink"}
 
 func genHashBin(t *rapid.T) HashBinCase {
 	c := genHashBinBody(t)
@@ -50,7 +50,7 @@ func execHashBin(s *ev.Shard, b *sandbox.Box, c HashBinCase) *rp.Fail {
 	var deps []string
 	files := map[string]string{}
 	var post []func() error
-	faulty := false
+	faulty, odd := false, false
 	for i, k := range c.Kinds {
 		name := fmt.Sprintf("d%d", i)
 		deps = append(deps, `"`+name+`"`)
@@ -70,6 +70,14 @@ func execHashBin(s *ev.Shard, b *sandbox.Box, c HashBinCase) *rp.Fail {
 		case "symlink":
 			files[name+".target"] = "t"
 			post = append(post, func() error { return os.Symlink(name+".target", p) })
+		case "devnull":
+			// something that can be opened and read but is not a regular file: a digest and an
+			// error are both in order, dying is not
+			odd = true
+			post = append(post, func() error { return os.Symlink("/dev/null", p) })
+		case "dirlink":
+			files[name+".d/x"] = "x"
+			post = append(post, func() error { return os.Symlink(name+".d", p) })
 		case "unreadable":
 			faulty = true
 			files[name] = "secret"
@@ -108,7 +116,7 @@ func execHashBin(s *ev.Shard, b *sandbox.Box, c HashBinCase) *rp.Fail {
 			return &rp.Fail{Sig: "ran-despite-unreadable-dependency", Size: size, Msg: desc + ": the task ran although its dependencies could not be hashed"}
 		}
 	}
-	if !faulty && r.Exit != 0 {
+	if !faulty && !odd && r.Exit != 0 {
 		return &rp.Fail{Sig: "error-on-readable-list", Size: size, Msg: fmt.Sprintf("%s: every dependency is a readable file or a directory, but spok failed: %s", desc, stderr)}
 	}
 	if s != nil {
@@ -117,6 +125,10 @@ func execHashBin(s *ev.Shard, b *sandbox.Box, c HashBinCase) *rp.Fail {
 			s.NonTrivial("hashbin:" + fmt.Sprint(c.Kinds, c.Flags))
 		} else {
 			s.Class("binary_all_readable")
+		}
+		if odd {
+			s.Class("binary_non_regular_readable_dependency")
+			s.NonTrivial("hashbin:" + fmt.Sprint(c.Kinds, c.Flags))
 		}
 	}
 	return nil
